@@ -3,7 +3,7 @@
 import itertools, random, re
 import refmodel as R
 
-ASSIGN = ["absent", "empty", "pred", "dots", "pred_dots", "type"]
+ASSIGN = ["absent", "empty", "pred", "dots", "pred_dots", "type", "dots_pred", "pred_dots_type"]     # `..` may stand anywhere in the list
 BINOPS = ["Add", "BitAnd", "BitOr", "BitXor", "Div", "Mul", "Rem", "Shl", "Shr", "Sub"]
 UNOPS = ["Neg", "Not"]
 ENUM_TRAITS = ["Copy", "Clone", "Debug", "Default"] + R.CMP_TRAITS
@@ -57,7 +57,8 @@ class Slot:
         a = self.assign
         if a == "absent":
             return None
-        inner = {"empty": "", "pred": "T: %s" % self.marker, "dots": "..", "pred_dots": "T: %s, .." % self.marker, "type": "Vec<T>"}[a]
+        inner = {"empty": "", "pred": "T: %s" % self.marker, "dots": "..", "pred_dots": "T: %s, .." % self.marker, "type": "Vec<T>", "dots_pred": ".., T: %s" % self.marker,
+                 "pred_dots_type": "T: %s, .., Vec<T>" % self.marker}[a]
         return "bound(%s)" % inner
 
 
@@ -70,11 +71,11 @@ def walk(state, slots, trait_form):
         a = s.assign
         if a == "absent":
             continue
-        if a in ("pred", "pred_dots"):
+        if a in ("pred", "pred_dots", "dots_pred", "pred_dots_type"):
             preds.append("T: %s" % s.marker)
-        if a == "type":
+        if a in ("type", "pred_dots_type"):
             preds.append(trait_form("Vec<T>"))
-        go = a in ("dots", "pred_dots")
+        go = a in ("dots", "pred_dots", "dots_pred", "pred_dots_type")
     return preds, go
 
 
